@@ -1,20 +1,38 @@
-(* Line-protocol driver around the extracted C15 model.
-   input line:   u64 <hexA> <hexB>      |  bytes <hexbytesA> <hexbytesB>     ("-" = empty byte string)
-   output line:  <enc a> <enc b> <cmp> <cmp_rev> <sep|none> <decode-ok a> *)
+(* Line-protocol driver around the extracted C15 model (coq/Types/KeyTypes.v).
+
+   usage:  c15_driver model   < cases.txt  > model.txt      S2: what the model computes from the VALUES
+           c15_driver oracle  < merged.txt > verdict.txt    S3: the property itself on the implementation's outputs
+
+   cases.txt
+     T <tid> <type>                type ::= unit|bool|char|u8..u128|i8..i128|str|string|bytes|fb<N>|
+                                            opt(<type>)|arr(<n>,<type>)|tup(<type>,...)
+     C <tid> <val> <val>           val  ::= u | T | F | c<hex> | n<hex> | i[-]<hex> | s[<hex>.<hex>...] |
+                                            x[<hexbytes>] | N | S<val> | L[<val>,...]
+   model.txt / impl.txt (same shape, compared line by line)
+     T <tid> fw=<n|none> min=<hex|none>
+     R <enc a> <enc b> <cmp a b> <cmp b a> <separator(lo,hi)|none> <branch_separator(lo,hi)|none> <rt a> <rt b>
+   merged.txt (oracle mode):  <cases line> | <impl line> | <implx line>
+     implx T:  minv=<val|none|panic> minreenc=<0|1|na>
+     implx C:  sv= reenc= cls= csr= bsv= breenc= bcls= bcsr= mina= minb=
+   Numbers stay the extracted inductive N / Z / positive / nat: no OCaml int arithmetic on data. *)
 open C15_model
 
-(* ---- conversions between text and the extracted inductive numbers (no OCaml int arithmetic on data) *)
+(* ---- conversions between text and the extracted inductive numbers *)
 let rec pos_of_bits = function          (* bits: least significant first, last one is 1 *)
   | [] -> failwith "pos_of_bits"
   | [true] -> XH
   | b :: r -> if b then XI (pos_of_bits r) else XO (pos_of_bits r)
 let n_of_hex (s : string) : n =
-  let bits = ref [] in                  (* most significant first *)
+  if s = "" then failwith "empty number";
+  let bits = ref [] in                  (* least significant first *)
   String.iter (fun c ->
-    let d = int_of_string ("0x" ^ String.make 1 c) in
-    bits := !bits @ [d land 8 <> 0; d land 4 <> 0; d land 2 <> 0; d land 1 <> 0]) s;
-  let rec strip = function false :: r -> strip r | l -> l in
-  match strip !bits with [] -> N0 | l -> Npos (pos_of_bits (List.rev l))
+    let d = (match c with
+      | '0'..'9' -> Char.code c - 48 | 'a'..'f' -> Char.code c - 87 | 'A'..'F' -> Char.code c - 55
+      | _ -> failwith "hex digit") in
+    bits := (d land 1 <> 0) :: (d land 2 <> 0) :: (d land 4 <> 0) :: (d land 8 <> 0) :: !bits) s;
+  (* !bits is least significant first already (later digits are pushed in front) *)
+  let rec strip_top = function false :: r -> strip_top r | l -> l in
+  match strip_top (List.rev !bits) with [] -> N0 | l -> Npos (pos_of_bits (List.rev l))
 let rec bits_of_pos = function XH -> [true] | XO p -> false :: bits_of_pos p | XI p -> true :: bits_of_pos p
 let hex_of_n (x : n) : string =
   match x with N0 -> "0" | Npos p ->
@@ -28,28 +46,257 @@ let hex_of_n (x : n) : string =
         let idx = 4 * k + j in
         v := !v * 2 + (if idx < nb && bits.(idx) then 1 else 0) done;
       "0123456789abcdef".[!v])
-let n_of_int i = n_of_hex (Printf.sprintf "%x" i)
-let int_of_n x = int_of_string ("0x" ^ hex_of_n x)
+let byte_tab : n array = Array.init 256 (fun i -> n_of_hex (Printf.sprintf "%x" i))
+let rec nat_of_int i = if i <= 0 then O else S (nat_of_int (i - 1))
+let rec int_of_nat = function O -> 0 | S m -> 1 + int_of_nat m
+let int_of_byte (x : n) : int =
+  let s = hex_of_n x in
+  if String.length s > 2 then failwith "model produced a non-byte" else int_of_string ("0x" ^ s)
 let bytes_of_hex s : n list =
-  if s = "-" then [] else List.init (String.length s / 2) (fun i -> n_of_int (int_of_string ("0x" ^ String.sub s (2*i) 2)))
-let hex_of_bytes (l : n list) = if l = [] then "-" else String.concat "" (List.map (fun b -> Printf.sprintf "%02x" (int_of_n b)) l)
+  if s = "-" then [] else begin
+    if String.length s mod 2 <> 0 then failwith "odd hex";
+    List.init (String.length s / 2) (fun i -> byte_tab.(int_of_string ("0x" ^ String.sub s (2*i) 2)))
+  end
+let hex_of_bytes (l : n list) =
+  if l = [] then "-" else begin
+    let b = Buffer.create 64 in
+    List.iter (fun x -> Buffer.add_string b (Printf.sprintf "%02x" (int_of_byte x))) l;
+    Buffer.contents b
+  end
 let cmp_s = function Eq -> "eq" | Lt -> "lt" | Gt -> "gt"
 
+(* ---- types *)
+let parse_type (s : string) : kty =
+  let pos = ref 0 in
+  let n = String.length s in
+  let peek () = if !pos < n then s.[!pos] else '\000' in
+  let expect c = if peek () = c then incr pos else failwith (Printf.sprintf "type: expected %c at %d in %s" c !pos s) in
+  let ident () =
+    let st = !pos in
+    while !pos < n && (match s.[!pos] with 'a'..'z' | '0'..'9' -> true | _ -> false) do incr pos done;
+    String.sub s st (!pos - st) in
+  let number () =
+    let st = !pos in
+    while !pos < n && (match s.[!pos] with '0'..'9' -> true | _ -> false) do incr pos done;
+    int_of_string (String.sub s st (!pos - st)) in
+  let rec ty () =
+    let id = ident () in
+    match id with
+    | "unit" -> TUnit | "bool" -> TBool | "char" -> TChar
+    | "u8" -> TU (nat_of_int 1) | "u16" -> TU (nat_of_int 2) | "u32" -> TU (nat_of_int 4)
+    | "u64" -> TU (nat_of_int 8) | "u128" -> TU (nat_of_int 16)
+    | "i8" -> TI (nat_of_int 1) | "i16" -> TI (nat_of_int 2) | "i32" -> TI (nat_of_int 4)
+    | "i64" -> TI (nat_of_int 8) | "i128" -> TI (nat_of_int 16)
+    | "str" | "string" -> TStr
+    | "bytes" -> TBytes
+    | "opt" -> expect '('; let t = ty () in expect ')'; TOpt t
+    | "arr" -> expect '('; let k = number () in expect ','; let t = ty () in expect ')'; TArr (nat_of_int k, t)
+    | "tup" ->
+        expect '(';
+        let l = ref [ty ()] in
+        while peek () = ',' do incr pos; l := ty () :: !l done;
+        expect ')'; TTup (List.rev !l)
+    | _ when String.length id > 2 && String.sub id 0 2 = "fb" ->
+        TFixedBytes (nat_of_int (int_of_string (String.sub id 2 (String.length id - 2))))
+    | _ -> failwith ("unknown type " ^ id) in
+  let t = ty () in
+  if !pos <> n then failwith ("trailing garbage in type " ^ s);
+  t
+
+(* ---- values *)
+let parse_val (s : string) : val0 =
+  let pos = ref 0 in
+  let n = String.length s in
+  let peek () = if !pos < n then s.[!pos] else '\000' in
+  let expect c = if peek () = c then incr pos else failwith (Printf.sprintf "val: expected %c at %d in %s" c !pos s) in
+  let hexrun () =
+    let st = !pos in
+    while !pos < n && (match s.[!pos] with '0'..'9' | 'a'..'f' -> true | _ -> false) do incr pos done;
+    String.sub s st (!pos - st) in
+  let rec v () =
+    let c = peek () in
+    incr pos;
+    match c with
+    | 'u' -> VUnit
+    | 'T' -> VBool true
+    | 'F' -> VBool false
+    | 'c' -> VChar (n_of_hex (hexrun ()))
+    | 'n' -> VU (n_of_hex (hexrun ()))
+    | 'i' ->
+        let neg = (peek () = '-') in
+        if neg then incr pos;
+        (match n_of_hex (hexrun ()) with
+         | N0 -> VI Z0
+         | Npos p -> VI (if neg then Zneg p else Zpos p))
+    | 's' ->
+        expect '[';
+        if peek () = ']' then (incr pos; VStr [])
+        else begin
+          let l = ref [n_of_hex (hexrun ())] in
+          while peek () = '.' do incr pos; l := n_of_hex (hexrun ()) :: !l done;
+          expect ']'; VStr (List.rev !l)
+        end
+    | 'x' -> expect '['; let h = hexrun () in expect ']'; VBytes (bytes_of_hex (if h = "" then "-" else h))
+    | 'N' -> VNone
+    | 'S' -> VSome (v ())
+    | 'L' ->
+        expect '[';
+        if peek () = ']' then (incr pos; VList [])
+        else begin
+          let l = ref [v ()] in
+          while peek () = ',' do incr pos; l := v () :: !l done;
+          expect ']'; VList (List.rev !l)
+        end
+    | _ -> failwith (Printf.sprintf "val: unexpected %c at %d in %s" c (!pos - 1) s) in
+  let r = v () in
+  if !pos <> n then failwith ("trailing garbage in value " ^ s);
+  r
+
+let fw_s t = match fixed_width t with Some w -> string_of_int (int_of_nat w) | None -> "none"
+let optbytes_s = function Some b -> hex_of_bytes b | None -> "none"
+
+(* ---- S2: the model's outputs for a case, all computed from the values *)
+let model_line t a b =
+  let ea = encode t a and eb = encode t b in
+  let c = vcompare t a b in
+  let sep, bsep =
+    (match c with
+     | Eq -> "none", "none"
+     | Lt -> hex_of_bytes (separator t ea eb), hex_of_bytes (branch_separator t ea eb)
+     | Gt -> hex_of_bytes (separator t eb ea), hex_of_bytes (branch_separator t eb ea)) in
+  let rt e v = (match decode t e with Some v' -> v' = v | None -> false) in
+  Printf.sprintf "R %s %s %s %s %s %s %b %b" (hex_of_bytes ea) (hex_of_bytes eb)
+    (cmp_s (kcompare t ea eb)) (cmp_s (kcompare t eb ea)) sep bsep (rt ea a) (rt eb b)
+
+(* ---- S3: the property on the implementation's outputs.
+   The only model functions used are the ones the theorems are about as SPECIFICATION:
+   wt (has_type), vcompare (the value order, proved a total order), and length comparisons. *)
+let kv (s : string) : (string * string) list =
+  List.filter_map (fun f ->
+    match String.index_opt f '=' with
+    | Some i -> Some (String.sub f 0 i, String.sub f (i + 1) (String.length f - i - 1))
+    | None -> None) (String.split_on_char ' ' s)
+
+let hexlen h = if h = "-" then 0 else String.length h / 2
+
+let check_sep fails what t lo hi elo (sep_hex : string) (x : (string * string) list) pre (fw_impl : string) =
+  let get k = try List.assoc (pre ^ k) x with Not_found -> "missing" in
+  let fail m = fails := (what ^ ": " ^ m) :: !fails in
+  if sep_hex = "none" || sep_hex = "panic" then fail ("no separator returned (" ^ sep_hex ^ ")")
+  else begin
+    (match get "sv" with
+     | "panic" -> fail "separator is not decodable by from_bytes (panic)"
+     | "missing" | "none" | "na" -> fail "separator value missing"
+     | svs ->
+        let sv = parse_val svs in
+        if not (wt t sv) then fail ("separator decodes to a value that is not of the type: " ^ svs)
+        else begin
+          if vcompare t lo sv = Gt then fail ("separator value " ^ svs ^ " sorts below left");
+          if vcompare t sv hi <> Lt then fail ("separator value " ^ svs ^ " does not sort below right")
+        end);
+    if get "reenc" <> "1" then fail "as_bytes(from_bytes(separator)) <> separator (not a valid encoding)";
+    (match get "cls" with "lt" | "eq" -> () | o -> fail ("Key::compare(left, separator) = " ^ o));
+    (match get "csr" with "lt" -> () | o -> fail ("Key::compare(separator, right) = " ^ o));
+    if hexlen sep_hex > hexlen elo then fail "separator longer than left";
+    if pre = "b" && fw_impl <> "none" && hexlen sep_hex <> int_of_string fw_impl then
+      fail "branch separator of a fixed width type does not have that width"
+  end
+
 let () =
+  let mode = if Array.length Sys.argv > 1 then Sys.argv.(1) else "model" in
+  let types : (string, kty) Hashtbl.t = Hashtbl.create 64 in
+  let timpl : (string, string * val0 option) Hashtbl.t = Hashtbl.create 64 in   (* tid -> impl fw, min value *)
+  let split3 line =
+    (* "<case> | <impl> | <implx>" *)
+    match Str.split (Str.regexp_string " | ") line with
+    | [a; b; c] -> a, b, c
+    | [a; b] -> a, b, ""
+    | _ -> failwith ("bad merged line: " ^ line) in
   try
     while true do
       let line = input_line stdin in
-      match String.split_on_char ' ' line with
-      | [ty; a; b] ->
-        let t, va, vb = (match ty with
-          | "u64" -> TU64, VU64 (n_of_hex a), VU64 (n_of_hex b)
-          | "bytes" -> TBytes, VBytes (bytes_of_hex a), VBytes (bytes_of_hex b)
-          | _ -> failwith "type") in
-        let ea = encode t va and eb = encode t vb in
-        let c = kcompare t ea eb in
-        let sep = if vcompare t va vb = Lt then hex_of_bytes (separator t ea eb) else "none" in
-        let dec = (match decode t ea with Some v -> v = va | None -> false) in
-        Printf.printf "%s %s %s %s %s %b\n" (hex_of_bytes ea) (hex_of_bytes eb) (cmp_s c) (cmp_s (kcompare t eb ea)) sep dec
-      | _ -> print_endline "BADLINE"
+      (try
+        if mode = "model" then begin
+          match String.split_on_char ' ' line with
+          | ["T"; tid; te] ->
+              let t = parse_type te in
+              Hashtbl.replace types tid t;
+              if not (wf_ty t) then failwith "type is not well formed";
+              Printf.printf "T %s fw=%s min=%s\n" tid (fw_s t) (optbytes_s (min_encoded_key t))
+          | ["C"; tid; a; b] ->
+              let t = Hashtbl.find types tid in
+              print_endline (model_line t (parse_val a) (parse_val b))
+          | _ -> print_endline "BADLINE"
+        end else begin
+          let case, impl, implx = split3 line in
+          let x = kv implx in
+          match String.split_on_char ' ' case, String.split_on_char ' ' impl with
+          | ["T"; tid; te], ("T" :: _ :: rest) ->
+              let t = parse_type te in
+              Hashtbl.replace types tid t;
+              let ik = kv (String.concat " " rest) in
+              let fw = (try List.assoc "fw" ik with Not_found -> "missing") in
+              let minh = (try List.assoc "min" ik with Not_found -> "missing") in
+              let fails = ref [] in
+              let mv =
+                (match (try List.assoc "minv" x with Not_found -> "missing") with
+                 | "none" -> if minh <> "none" then fails := "min_encoded_key value missing" :: !fails; None
+                 | "panic" -> fails := "min_encoded_key is not decodable by from_bytes" :: !fails; None
+                 | "missing" -> fails := "min_encoded_key value missing" :: !fails; None
+                 | s ->
+                    let v = parse_val s in
+                    if not (wt t v) then (fails := "min_encoded_key decodes to a value that is not of the type" :: !fails; None)
+                    else begin
+                      if (try List.assoc "minreenc" x with Not_found -> "0") <> "1" then
+                        fails := "min_encoded_key is not a canonical encoding" :: !fails;
+                      if fw <> "none" && hexlen minh <> int_of_string fw then
+                        fails := "min_encoded_key of a fixed width type does not have that width" :: !fails;
+                      Some v
+                    end) in
+              Hashtbl.replace timpl tid (fw, mv);
+              if !fails = [] then print_endline "ok" else print_endline ("FAIL " ^ String.concat "; " (List.rev !fails))
+          | ["C"; tid; sa; sb], ["R"; ea; eb; cab; cba; sep; bsep; rta; rtb] ->
+              let t = Hashtbl.find types tid in
+              let fw_impl, mv = (try Hashtbl.find timpl tid with Not_found -> ("none", None)) in
+              let a = parse_val sa and b = parse_val sb in
+              if not (wt t a && wt t b) then print_endline "BADCASE value not of the type"
+              else begin
+                let fails = ref [] in
+                let fail m = fails := m :: !fails in
+                (* every value decodes to what was encoded *)
+                if rta <> "true" then fail ("from_bytes(as_bytes(a)) <> a for a=" ^ sa);
+                if rtb <> "true" then fail ("from_bytes(as_bytes(b)) <> b for b=" ^ sb);
+                (* fixed width types have that width *)
+                if fw_impl <> "none" && (hexlen ea <> int_of_string fw_impl || hexlen eb <> int_of_string fw_impl) then
+                  fail "encoding of a fixed width type does not have that width";
+                (* compare orders encodings exactly as the values order *)
+                let c = vcompare t a b in
+                if cab <> cmp_s c then fail (Printf.sprintf "Key::compare(a,b)=%s but the values order %s" cab (cmp_s c));
+                if cba <> cmp_s (vcompare t b a) then
+                  fail (Printf.sprintf "Key::compare(b,a)=%s but the values order %s" cba (cmp_s (vcompare t b a)));
+                (* separators *)
+                (match c with
+                 | Eq -> ()
+                 | Lt -> check_sep fails "separator" t a b ea sep x "" fw_impl;
+                         check_sep fails "branch_separator" t a b ea bsep x "b" fw_impl
+                 | Gt -> check_sep fails "separator" t b a eb sep x "" fw_impl;
+                         check_sep fails "branch_separator" t b a eb bsep x "b" fw_impl);
+                (* min_encoded_key sorts at or below every value *)
+                (match mv with
+                 | Some m ->
+                     if vcompare t m a = Gt || vcompare t m b = Gt then fail "min_encoded_key value is not the least value";
+                     List.iter (fun k -> match (try List.assoc k x with Not_found -> "missing") with
+                       | "lt" | "eq" -> ()
+                       | o -> fail ("Key::compare(min_encoded_key, value) = " ^ o)) ["mina"; "minb"]
+                 | None -> ());
+                if !fails = [] then print_endline "ok" else print_endline ("FAIL " ^ String.concat "; " (List.rev !fails))
+              end
+          | _ -> print_endline ("BADLINE " ^ line)
+        end
+      with
+      | End_of_file -> raise End_of_file
+      | Failure m -> print_endline ("ERROR " ^ m)
+      | Not_found -> print_endline "ERROR unknown type id"
+      | Invalid_argument m -> print_endline ("ERROR " ^ m))
     done
   with End_of_file -> ()
